@@ -9,6 +9,7 @@ package c12
 
 import (
 	"fmt"
+	"math"
 	"os"
 	"runtime"
 	"strings"
@@ -44,6 +45,10 @@ const (
 	idV1Inflight = "C12-v1-inflight-across-update"
 	// v0 Flush ran under the read lock, concurrently with admissions
 	idFlush = "C12-v0-flush-races-with-admission"
+	// Update walks the block tx by tx: a failed repeat of a tx makes the cache forget its successful occurrence
+	idRepeat = "C12-update-forgets-repeated-committed-tx"
+	// the running gas sum of ReapMaxBytesMaxGas wraps around int64
+	idGasWrap = "C12-reap-gas-sum-overflow"
 )
 
 // ---- scripted application ----
@@ -317,6 +322,7 @@ func genConf(t *rapid.T, v1 bool) conf {
 		c.CacheSize = 64
 	}
 	c.Keep = rapid.Bool().Draw(t, "keepInvalid")
+	c.HugeGas = rapid.IntRange(0, 5).Draw(t, "hugeGas") == 0
 	c.Recheck = rapid.IntRange(0, 3).Draw(t, "recheck") != 0
 	c.InitHeight = int64(rapid.IntRange(0, 3).Draw(t, "initHeight"))
 	if v1 {
@@ -326,7 +332,19 @@ func genConf(t *rapid.T, v1 bool) conf {
 	return c
 }
 
-func genVerdict(t *rapid.T) verdict {
+var (
+	hugeGasChoices  = []int64{0, 1, 1 << 61, 1 << 62, 1<<62 + 1, math.MaxInt64 / 2, math.MaxInt64 - 1, math.MaxInt64}
+	hugePostChoices = []int64{-1, 1 << 62, 1<<62 + 5, math.MaxInt64 - 1, math.MaxInt64, math.MaxInt64}
+)
+
+func postChoicesFor(c conf) []int64 {
+	if c.HugeGas {
+		return hugePostChoices
+	}
+	return postChoices
+}
+
+func genVerdict(t *rapid.T, c conf) verdict {
 	v := verdict{}
 	if rapid.IntRange(0, 5).Draw(t, "rejNew") == 0 {
 		v.CodeNew = 1
@@ -334,7 +352,11 @@ func genVerdict(t *rapid.T) verdict {
 	if rapid.IntRange(0, 4).Draw(t, "rejRe") == 0 {
 		v.CodeRe = 2
 	}
-	v.Gas = rapid.SampledFrom(gasChoices).Draw(t, "gas")
+	if c.HugeGas {
+		v.Gas = rapid.SampledFrom(hugeGasChoices).Draw(t, "gas")
+	} else {
+		v.Gas = rapid.SampledFrom(gasChoices).Draw(t, "gas")
+	}
 	v.Prio = int64(rapid.IntRange(0, 3).Draw(t, "prio"))
 	v.Sender = rapid.SampledFrom(senders).Draw(t, "sender")
 	return v
@@ -605,6 +627,10 @@ func (r *run) opUpdate(t *rapid.T) {
 		// txs this node never admitted (or no longer holds), possibly repeated inside the block
 		committed = append(committed, rapid.IntRange(0, r.c.Alpha-1).Draw(t, "foreignTx"))
 	}
+	if len(committed) > 0 && rapid.IntRange(0, 3).Draw(t, "repeat") == 0 {
+		// the same tx a second time in the block (a replay the proposer did not filter out)
+		committed = append(committed, committed[rapid.IntRange(0, len(committed)-1).Draw(t, "repeatWhich")])
+	}
 	if len(committed) > 1 && rapid.Bool().Draw(t, "shuffle") {
 		committed = rapid.Permutation(committed).Draw(t, "order")
 	}
@@ -629,7 +655,7 @@ func (r *run) opUpdate(t *rapid.T) {
 		desc += fmt.Sprintf(" pre<=%d", preMax)
 	}
 	if rapid.IntRange(0, 2).Draw(t, "newPost") == 0 {
-		postOn, postG = true, rapid.SampledFrom(postChoices).Draw(t, "postGas")
+		postOn, postG = true, rapid.SampledFrom(postChoicesFor(r.c)).Draw(t, "postGas")
 		post = mkPost(postG, rapid.Bool().Draw(t, "postViaState"))
 		desc += fmt.Sprintf(" gas<=%d", postG)
 	}
@@ -677,6 +703,27 @@ func (r *run) opUpdate(t *rapid.T) {
 	}
 	if m.expired > expBefore {
 		r.cls("update:ttl-expired-some")
+	}
+	// a tx that occurs in the block successfully and again, later, unsuccessfully
+	for k, idx := range committed {
+		if oks[k] || r.c.Keep {
+			continue
+		}
+		okBefore := false
+		for q := 0; q < k; q++ {
+			if committed[q] == idx && oks[q] {
+				okBefore = true
+			}
+		}
+		if !okBefore {
+			continue
+		}
+		r.cls("update:repeated-tx-ok-then-failed")
+		if m.forgetRepeats && r.c.CacheSize > 0 && !r.s.has(m.txs[idx]) {
+			// listed finding (the reference follows it while it is listed, so the search goes on behind it)
+			lib.ObservedKnown(idRepeat)
+			lib.ExcludedByKnown(idRepeat)
+		}
 	}
 	r.compare("Update")
 	// a committed transaction is gone (stated on its own, beside the model comparison)
@@ -753,10 +800,16 @@ func (r *run) opReapBytesGas(t *rapid.T) {
 	maxGas := limit("gas", func(k int) int64 {
 		var g int64
 		for _, e := range ord[:k] {
+			if e.gas > math.MaxInt64-1-g {
+				return math.MaxInt64 - 1 // saturate (the +-1 behind it must not wrap either)
+			}
 			g += e.gas
 		}
 		return g
 	})
+	if r.c.HugeGas && rapid.IntRange(0, 3).Draw(t, "gasTop") == 0 {
+		maxGas = math.MaxInt64 // "practically unlimited", as some chains configure it
+	}
 	// the hand-written size formula of the reference against the real encoder
 	var ref int64
 	for _, tx := range txs {
@@ -770,6 +823,9 @@ func (r *run) opReapBytesGas(t *rapid.T) {
 	gs, ws := name(got, r.a.alpha), r.want(ord[:p])
 	r.logf("ReapMaxBytesMaxGas(%d, %d) -> %q", maxBytes, maxGas, gs)
 	r.cls("reapbytesgas")
+	if maxGas > math.MaxInt64/2 {
+		r.cls("reapbytesgas:gas-limit-above-half-int64")
+	}
 	if p < len(ord) {
 		r.cls("reapbytesgas:limit-binds")
 		for _, e := range ord[:p+1] {
@@ -781,6 +837,18 @@ func (r *run) opReapBytesGas(t *rapid.T) {
 	}
 	if len(ord) > 12 {
 		r.cls("reapbytesgas:pool-above-12")
+	}
+	if gs != ws && maxGas >= 0 && lib.IsKnown(idGasWrap) {
+		// listed finding: tolerated exactly when the plain int64 running sum over the reap order wraps around
+		var g int64
+		for _, e := range ord {
+			if e.gas > math.MaxInt64-g {
+				lib.ObservedKnown(idGasWrap)
+				lib.ExcludedByKnown(idGasWrap)
+				return
+			}
+			g += e.gas
+		}
 	}
 	if gs != ws {
 		r.failf("ReapMaxBytesMaxGas(maxBytes=%d, maxGas=%d) returned %q; reference (longest prefix within both limits): %q of %s", maxBytes, maxGas, gs, ws, r.poolString())
@@ -820,7 +888,7 @@ func (r *run) opSetVerdict(t *rapid.T) {
 	}
 	idx := rapid.IntRange(0, r.c.Alpha-1).Draw(t, "i")
 	v := r.a.tab[idx]
-	nv := genVerdict(t)
+	nv := genVerdict(t, r.c)
 	if r.m.find(idx) >= 0 {
 		// gas and sender label of a pooled tx are what the application said at admission; keep them stable while
 		// it is pooled so that the recheck answer cannot contradict them (the property does not say which wins)
@@ -833,11 +901,11 @@ func (r *run) opSetVerdict(t *rapid.T) {
 func runHistory(rt *rapid.T, testName string, v1 bool) {
 	c := genConf(rt, v1)
 	a := &app{alpha: map[string]int{}}
-	m := &model{c: c, height: c.InitHeight, preMax: -1}
+	m := &model{c: c, height: c.InitHeight, preMax: -1, forgetRepeats: lib.IsKnown(idRepeat)}
 	for i := 0; i < c.Alpha; i++ {
 		m.txs[i] = []byte(strings.Repeat(string(rune(letter(i))), c.Lens[i]))
 		a.alpha[string(m.txs[i])] = i
-		a.tab[i] = genVerdict(rt)
+		a.tab[i] = genVerdict(rt, c)
 	}
 	var pre mempool.PreCheckFunc
 	var post mempool.PostCheckFunc
@@ -846,7 +914,7 @@ func runHistory(rt *rapid.T, testName string, v1 bool) {
 		pre = mkPre(m.preMax, false)
 	}
 	if rapid.IntRange(0, 3).Draw(rt, "initPost") == 0 {
-		m.postOn, m.postG = true, rapid.SampledFrom(postChoices).Draw(rt, "postGas")
+		m.postOn, m.postG = true, rapid.SampledFrom(postChoicesFor(c)).Draw(rt, "postGas")
 		post = mkPost(m.postG, false)
 	}
 	s, err := newSUT(c, a, pre, post)
